@@ -281,6 +281,7 @@ pub fn args_for(rng: &mut Rng, kind: usize, t: Tup, other: Tup) -> Vec<i64> {
     "LD.new" => vec![t.y, t.m, t.d],
     "LD.get" => vec![t.y, t.m, t.d, rng.below(LD_GETTERS as u64) as i64],
     "LD.next" | "LD.step" => vec![t.y, t.m, t.d, small_n(rng)],
+    "LD.hour" => vec![t.y, t.m, t.d, rng.range(0, 12)],
     "LH.new" => vec![t.y, t.m, t.d, t.h, t.mi, t.s],
     "LH.get" => vec![t.y, t.m, t.d, t.h, t.mi, t.s, rng.below(LH_GETTERS as u64) as i64],
     "LH.next" | "LH.step" => vec![t.y, t.m, t.d, t.h, t.mi, t.s, rng.range(-30, 30)],
@@ -479,6 +480,8 @@ pub fn gen_run(rng: &mut Rng, sw: &Swarm, pool: &[Query], leap: &Leap, reset: bo
   // interleave generation across threads so that `recent` is shared in a mixed order
   let total = sw.threads * sw.ops_per_thread;
   let mut slots_used: Vec<[bool; SLOTS]> = vec![[false; SLOTS]; sw.threads];
+  // what the generator believes each slot holds: true = LunarHour, false = LunarDay
+  let mut slot_hour: Vec<[bool; SLOTS]> = vec![[false; SLOTS]; sw.threads];
   let mut emitted = 0usize;
   let mut guard = 0usize;
   while emitted < total && guard < total * 8 {
@@ -496,16 +499,30 @@ pub fn gen_run(rng: &mut Rng, sw: &Swarm, pool: &[Query], leap: &Leap, reset: bo
         let hour = sw.fam[FAM_LH] && (!sw.fam[FAM_LD] || rng.chance(1, 2));
         let slot = rng.below(SLOTS as u64) as usize;
         slots_used[t][slot] = true;
+        slot_hour[t][slot] = hour;
         let args = if hour { vec![base.y, base.m, base.d, base.h, base.mi, base.s] } else { vec![base.y, base.m, base.d] };
         Op::HNew { slot, hour, args }
       } else {
         let slot = *rng.pick(&filled);
         match rng.below(10) {
           0 | 1 => Op::HNext { slot, n: *rng.pick(&[1i64, 1, -1, 2, 0, 0, 7, -7, 29, 30, -30, 1, 12]) },
-          2 | 3 => {
+          2 => {
             let to = rng.below(SLOTS as u64) as usize;
             slots_used[t][to] = true;
+            slot_hour[t][to] = slot_hour[t][slot];
             Op::HClone { from: slot, to }
+          }
+          3 => {
+            // derive a value from another one: the day of an hour, or one of the hours of a day
+            let to = rng.below(SLOTS as u64) as usize;
+            slots_used[t][to] = true;
+            if slot_hour[t][slot] {
+              slot_hour[t][to] = false;
+              Op::HDay { from: slot, to }
+            } else {
+              slot_hour[t][to] = true;
+              Op::HHour { from: slot, to, k: *rng.pick(&[0usize, 12, 12, 1, 6, 11]) }
+            }
           }
           _ => Op::HGet { slot, g: rng.below(LD_GETTERS.max(LH_GETTERS) as u64) as i64 },
         }
